@@ -97,7 +97,7 @@ def strip_list(t):
 def paths_rules(rep, prog):
     q = U + "semi_directed_paths"
     f = need(prog, q)
-    S = Sym(prog, inline=lambda g: g.module.name == "sempler.utils" and g.qname != q)
+    S = Sym(prog, inline=lambda g: g.public_module.name == "sempler.utils" and g.qname != q)
     run_function(S, f)
     def is_frame_list(v):
         if v[0] == "ext" and v[1] == "collections.deque" and len(v[2]) == 1 and not v[3]:
@@ -334,7 +334,7 @@ def truthy_node_rule(rep, prog):
     NODESETS = {"S", "A", "B", "I", "path", "visited", "to_visit"}
     n = 0
     for f in sorted(prog.funcs.values(), key=lambda f: f.qname):
-        if f.module.name != "sempler.utils":
+        if f.public_module.name != "sempler.utils":
             continue
         for node in ast.walk(f.node):
             if isinstance(node, ast.Call) and isinstance(node.func, ast.Name) and node.func.id in ("any", "all") and len(node.args) == 1 and \
